@@ -23,7 +23,7 @@ import (
 // and the error summary are the real ones, and every executed line is identified by content). The multiset of executed log
 // ids must be exactly {0..L-1}.
 
-var c17Variants = []string{"lf", "lf_no_final_newline", "crlf", "lf_blank_lines", "crlf_blank_lines_no_final_newline"}
+var c17Variants = []string{"lf", "lf_no_final_newline", "crlf", "lf_blank_lines", "crlf_blank_lines_no_final_newline", "lf_long_line_5k", "crlf_long_line_40k"}
 
 func c17BatchFile(L int, variant string, lineHead string) string {
 	nl := "\n"
@@ -38,7 +38,16 @@ func c17BatchFile(L int, variant string, lineHead string) string {
 				b.WriteString(nl) // two blank lines in a row
 			}
 		}
-		fmt.Fprintf(&b, "%s soilId=X%03d", lineHead, i)
+		pad := ""
+		if strings.Contains(variant, "long_line") && i == L/2 {
+			// one line far longer than common read buffers (4 KiB / 64 KiB stay below the line scanner's own limit)
+			n := 5000
+			if strings.Contains(variant, "40k") {
+				n = 40000
+			}
+			pad = strings.Repeat(" ", n)
+		}
+		fmt.Fprintf(&b, "%s%s soilId=X%03d", lineHead, pad, i)
 		if i < L-1 || !strings.Contains(variant, "no_final_newline") {
 			b.WriteString(nl)
 		}
